@@ -176,7 +176,7 @@ PROPS = {
     ),
     "C15": dict(
         thm=["Bgpfu.Thm.C15"],
-        ops=[("evalseq", ["c15"])],
+        ops=[("evalseq", ["c15"]), ("agentrun", ["c15"])],
         level_text="Theorems (evaluator part; every database, every list of candidates in every order, every per-candidate "
                    "fault set): a completed run gives each candidate exactly its solo result (isolation, via C17's connection "
                    "invariant); candidates that fail with an error never abort the run; with the two proposed repairs "
@@ -217,7 +217,7 @@ PROPS = {
     ),
     "C07": dict(
         thm=["Bgpfu.Thm.C07"],
-        ops=[("frame", ["only-close"])],
+        ops=[("frame", ["only-close"]), ("sched", ["only-close"])],
         level_text="Theorems: for every buffer content and every sequence of read results the receive loop never spins and "
                    "can only stay blocked while the stream is open; EOF / I/O error at any point yields an error, again on "
                    "every later call; the SSH pump exits on channel EOF and on channel closure and never spins. Real "
